@@ -32,6 +32,10 @@ const rule = "case = (world, permanode constraint, continuable sort, page size |
 	"and the concatenation equals L exactly; (c) Around=p, limit n: p in L => non-empty contiguous slice of L, length <= n, containing p; p not in L (non-matching permanode, claim, file, absent ref) => empty. " +
 	"non-trivial = some page boundary separates two results with the same timestamp, or the pivot is neither the first nor the last element of L; distinct = FNV-64 of (world blob list, query JSON)"
 
+// zones: the same instant may be written with different UTC offsets (dateCreated is free text in RFC 3339);
+// ordering and ties are about instants, not about their spelling.
+var zones = []*time.Location{time.UTC, time.UTC, time.FixedZone("", 2*3600), time.FixedZone("", 5*3600+1800), time.FixedZone("", -8*3600)}
+
 func TestMain(m *testing.M) {
 	log.SetOutput(io.Discard)
 	evid.Main(m, prop, "exploration", rule)
@@ -129,7 +133,7 @@ func genWorld(t *rapid.T, maxPerms int) *worldInfo {
 				w.AddClaim(p, d, "set-attribute", "camliDefVis", rapid.SampledFrom([]string{"hide", "show"}).Draw(t, "vis"))
 			case c == 7 && !timeSource:
 				timeSource = true
-				w.AddClaim(p, d, "set-attribute", "dateCreated", rapid.SampledFrom(wi.pool).Draw(t, "created").Format(time.RFC3339Nano))
+				w.AddClaim(p, d, "set-attribute", "dateCreated", rapid.SampledFrom(wi.pool).Draw(t, "created").In(rapid.SampledFrom(zones).Draw(t, "zone")).Format(time.RFC3339Nano))
 			case c == 8 && !timeSource && len(wi.files) > 0:
 				timeSource = true
 				w.AddClaim(p, d, "set-attribute", "camliContent", rapid.SampledFrom(wi.files).Draw(t, "content").RefS)
